@@ -837,7 +837,8 @@ func ruleCommentCollection(c *Ctx) {
 			break
 		}
 		if st, ok := in.(*ssa.Store); ok {
-			if _, ok := isFieldAddr(st.Addr, buf); ok && (isNilConst(st.Val) || func() bool { el, ok := sliceLitElems(st.Val); return ok && len(el) == 0 }()) {
+			// (an in-place truncation keeps the backing array: that no token shares it is R14.5's obligation)
+			if _, ok := isFieldAddr(st.Addr, buf); ok && (isNilConst(st.Val) || truncatedToEmpty(st.Val, buf) || func() bool { el, ok := sliceLitElems(st.Val); return ok && len(el) == 0 }()) {
 				reset = true
 			}
 		}
